@@ -5,6 +5,7 @@
 -/
 import GormModel.Model.Tx
 import GormModel.Lemmas.Tx
+import GormModel.Lemmas.TxRefine
 namespace Gorm
 open Gorm.Tx
 
@@ -117,5 +118,124 @@ theorem C04_savepoint_exact (c : Cfg) (o : Oracle) (h : Handle) (hp : h.pool.isC
 example :
     let r := run C04_cfg0 (fun k => k == 99) [.blk [.write (.ins 1) true] .retNil 0 true] { committed := [] }
     r.1.stale = false ∧ r.2 = .ok ∧ r.1.committed = [1] := by decide
+
+/-! ### nested blocks are local; `run` refines `spec` (proofs in Lemmas/TxRefine.lean) -/
+
+/-- GHOSTS ARE MONOTONE: for every program, handle, oracle and configuration the driver-call counter never decreases and
+    the flags `stale` / `rbFault`, once set, stay set. -/
+theorem C04_ghosts_monotone (c : Cfg) (o : Oracle) (ps : List Prog) (h : Handle) (db : DB) :
+    db.calls ≤ (runBody c o h ps db).1.calls ∧
+    (db.stale = true → (runBody c o h ps db).1.stale = true) ∧
+    (db.rbFault = true → (runBody c o h ps db).1.rbFault = true) :=
+  runBody_mono c o ps h db
+
+/-- SAVE-POINT STACK DISCIPLINE: whatever a function body does on a transaction handle (nested blocks of any depth and
+    outcome, manual SavePoint / RollbackTo, derived handles, faults anywhere) the driver transaction stays open and its
+    save-point stack is: entries pushed since — auto names generated at a call number ≥ the counter at entry — on top of a
+    suffix of the stack at entry. -/
+theorem C04_savepoint_stack (c : Cfg) (o : Oracle) (ps : List Prog) (h : Handle) (db : DB) (t : TxSt)
+    (hp : h.pool.isCommitter = true) (ht : db.tx = some t) :
+    ∃ t', (runBody c o h ps db).1.tx = some t' ∧
+      ∃ new suf, t'.saves = new ++ suf ∧ suf <:+ t.saves ∧ ∀ k s, (SpName.auto k, s) ∈ new → db.calls ≤ k :=
+  runBody_step c o ps h db hp t ht
+
+/-- NESTED BLOCK LOCALITY. On a clean transaction handle with nested transactions enabled, entered with working store `v`
+    and save-point stack `S` (auto names in `S` older than the call counter): a nested `Transaction` block — any body, any
+    depth, any outcome, any oracle — that does not return nil, whose ROLLBACK TO received no injected fault and which hands
+    the enclosing handle back clean (i.e. its SAVEPOINT succeeded and its own save point was still on the stack when the
+    function ended): the working store is exactly `v`, the stack is `S` plus the block's own save point (snapshot `v`),
+    the handle is the one passed in, and nothing reached the committed store. -/
+theorem C04_nested_local (c : Cfg) (o : Oracle) (h : Handle) (hp : h.pool.isCommitter = true) (he : h.err = [])
+    (hdis : (c.dis || h.dis) = false) (db : DB) (v : Store) (S : List (SpName × Store))
+    (ht : db.tx = some { cur := v, saves := S }) (hS : ∀ k s, (SpName.auto k, s) ∈ S → k < db.calls)
+    (body : List Prog) (out : Out) (tag : Nat) (must : Bool)
+    (hr : (runChild c o h (.blk body out tag must) db).2.2 ≠ .ok)
+    (hf : (runChild c o h (.blk body out tag must) db).1.rbFault = false)
+    (hh : (runChild c o h (.blk body out tag must) db).2.1.err = []) :
+    (runChild c o h (.blk body out tag must) db).1.tx = some { cur := v, saves := (SpName.auto db.calls, v) :: S } ∧
+    (runChild c o h (.blk body out tag must) db).2.1 = h ∧
+    (runChild c o h (.blk body out tag must) db).1.committed = db.committed :=
+  nested_local c o h hp he hdis db v S ht hS body out tag must hr hf hh
+
+/-- the complementary case: the oracle fails the block's SAVEPOINT — the function is not run, the transaction is untouched,
+    the SAVEPOINT error is returned, and the enclosing handle comes back poisoned (the root of finding F18) -/
+theorem C04_nested_savepoint_fault (c : Cfg) (o : Oracle) (h : Handle) (hp : h.pool.isCommitter = true) (he : h.err = [])
+    (hdis : (c.dis || h.dis) = false) (db : DB) (t : TxSt) (ht : db.tx = some t) (ho : o db.calls = true)
+    (body : List Prog) (out : Out) (tag : Nat) (must : Bool) :
+    (runChild c o h (.blk body out tag must) db).1.tx = some t ∧
+    (runChild c o h (.blk body out tag must) db).2.1.err = spErr h [.inj db.calls] ∧
+    (runChild c o h (.blk body out tag must) db).2.2 = .err (spErr h [.inj db.calls]) ∧
+    spErr h [.inj db.calls] ≠ [] ∧
+    (runChild c o h (.blk body out tag must) db).1.committed = db.committed :=
+  nested_savepoint_fault c o h hp he hdis db t ht ho body out tag must
+
+/-- DisableNestedTransaction: the block issues no SAVEPOINT / ROLLBACK TO of its own; the transaction is left as the
+    function body left it and the result is the function's -/
+theorem C04_nested_disabled (c : Cfg) (o : Oracle) (h : Handle) (hp : h.pool.isCommitter = true)
+    (hdis : (c.dis || h.dis) = true) (db : DB) (body : List Prog) (out : Out) (tag : Nat) (must : Bool) :
+    runChild c o h (.blk body out tag must) db = finishDis h out tag (runBody c o (nestH h) body (markStale h db)) ∧
+    (runChild c o h (.blk body out tag must) db).1.tx = (runBody c o (nestH h) body (markStale h db)).1.tx ∧
+    (runChild c o h (.blk body out tag must) db).1.calls = (runBody c o (nestH h) body (markStale h db)).1.calls ∧
+    (runChild c o h (.blk body out tag must) db).2.1 = h := by
+  rw [runChild_blk_dis c o h body out tag must db hp hdis]
+  refine ⟨rfl, ?_, ?_, (finishDis_frame h out tag _).2⟩
+  · unfold finishDis; simp
+  · unfold finishDis; exact fnEnd_calls _ _ _ _ _
+
+/-- REFINEMENT. Every well-formed program without `RollbackTo` nodes (`noRbs`; `SavePoint` nodes, nested blocks of any depth
+    with any outcome, manual Begin/Commit/Rollback sequences, derived handles are all allowed), every configuration and every
+    fault oracle, started with no transaction open and call counter 0: if the run exhibits no stale use of a poisoned handle
+    (finding F18) and no fault was injected into a ROLLBACK TO, the committed store and the result are exactly those of the
+    functional reference `spec`. -/
+theorem C04_refines (c : Cfg) (o : Oracle) (ps : List Prog) (db : DB)
+    (hwf : wfBody false ps = true) (hn : noRbs ps = true) (hd : db.tx = none) (hc : db.calls = 0)
+    (hs : (run c o ps db).1.stale = false) (hf : (run c o ps db).1.rbFault = false) :
+    (run c o ps db).1.committed = (spec c o ps db.committed).1 ∧ (run c o ps db).2 = (spec c o ps db.committed).2 :=
+  run_refines c o ps db hwf hn hd hc hs hf
+
+/-- the same on a fresh database -/
+theorem C04_refines_fresh (c : Cfg) (o : Oracle) (ps : List Prog) (s0 : Store)
+    (hwf : wfBody false ps = true) (hn : noRbs ps = true)
+    (hs : (run c o ps { committed := s0 }).1.stale = false) (hf : (run c o ps { committed := s0 }).1.rbFault = false) :
+    (run c o ps { committed := s0 }).1.committed = (spec c o ps s0).1 ∧ (run c o ps { committed := s0 }).2 = (spec c o ps s0).2 :=
+  run_refines c o ps { committed := s0 } hwf hn rfl rfl hs hf
+
+/-- non-vacuity of `C04_nested_local`: a two-level nested block with a manual save point and a manual RollbackTo inside,
+    returning an error, on a transaction with a non-empty entry stack — all hypotheses hold (and so does the conclusion);
+    checked by kernel evaluation (`decide +kernel`: plain `decide` runs out of heartbeats on a run of this size) -/
+example :
+    let h : Handle := { pool := .sqlTx }
+    let db : DB := { committed := [9], tx := some { cur := [1], saves := [(.manual 0, []), (.auto 0, [])] }, calls := 3 }
+    let body : List Prog :=
+      [.write (.ins 2) true, .sp 1 true, .write (.ins 3) true, .rb 1 true,
+       .blk [.write (.del 1) true] .panic 4 false, .write (.ins 1) false]
+    let x := runChild C04_cfg0 (fun _ => false) h (.blk body .retErr 5 true) db
+    x.2.2 ≠ .ok ∧ x.1.rbFault = false ∧ x.2.1.err = [] ∧
+    x.1.tx = some { cur := [1], saves := [(.auto 3, [1]), (.manual 0, []), (.auto 0, [])] } := by decide +kernel
+
+/-- non-vacuity of `C04_refines`: nested blocks with all outcomes, an ignored failing SavePoint, a derived handle whose
+    condition hides the deleted row, a manual sequence, and an injected fault (driver call 3) -/
+example :
+    let ps : List Prog :=
+      [.blk [.write (.ins 1) true,
+             .blk [.write (.ins 2) true, .sp 1 false] .retErr 1 false,
+             .blk [.write (.ins 3) true] .retNil 3 true,
+             .dv (.whereNe 1) [.write (.del 1) true] true] .retNil 2 true,
+       .man [.write (.ins 7) true] .commit true,
+       .blk [.write (.ins 8) true] .panic 6 false]
+    let r := run C04_cfg0 (fun k => k == 3) ps { committed := [] }
+    wfBody false ps = true ∧ noRbs ps = true ∧ r.1.stale = false ∧ r.1.rbFault = false ∧
+    r.1.committed = [1, 3, 7] ∧ r.2 = .ok := by decide +kernel
+
+
+/-- the same two non-vacuity checks on minimal programs, by plain `decide` -/
+example :
+    let x := runChild C04_cfg0 (fun _ => false) { pool := .sqlTx } (.blk [.write (.ins 2) true] .retErr 5 true)
+      { committed := [], tx := some { cur := [1], saves := [] }, calls := 1 }
+    x.2.2 ≠ .ok ∧ x.1.rbFault = false ∧ x.2.1.err = [] := by decide
+example :
+    let ps : List Prog := [.blk [.write (.ins 1) true, .blk [.write (.ins 2) true] .retErr 1 false] .retNil 2 true]
+    let r := run C04_cfg0 (fun _ => false) ps { committed := [] }
+    wfBody false ps = true ∧ noRbs ps = true ∧ r.1.stale = false ∧ r.1.rbFault = false ∧ r.1.committed = [1] := by decide
 
 end Gorm
